@@ -7,7 +7,7 @@ From Verif.proofs Require Import TrackerProofs.
 Import ListNotations.
 Local Open Scope N_scope.
 
-Definition ex_cfg := mkCfg 1 true 8 8 8 true.
+Definition ex_cfg := mkCfg 1 true 8 8 8 false.
 Definition ex_gen : list (addr * acct) := [(1, mkAcct 100 0 0); (2, mkAcct 50 0 0)].
 Definition ex_d1 := mkDelta 0 [(1, mkAcct 101 0 0)] [((1, 10), (HSet 7, HSet 3))]
                             [([107; 1], (Some [170], None))] [(10, mkCreat true 1 0)].
@@ -24,6 +24,9 @@ Definition ex_ops : list op :=
    OQAcct 1 1; OReload; OQAcct 3 1].
 
 Lemma ex_wf : wf_hist (genesis_world ex_gen) (history_of ex_ops).
+Proof. vm_compute. reflexivity. Qed.
+
+Lemma ex_lands : lands_ok (init ex_cfg ex_gen) ex_ops = true.
 Proof. vm_compute. reflexivity. Qed.
 
 Lemma ex_enabled : enabled_run (init ex_cfg ex_gen) ex_ops.
@@ -53,7 +56,7 @@ Lemma ex_committed_phase :
 Proof. vm_compute. repeat split. Qed.
 
 (* ---------- the hypotheses on the history are needed ---------- *)
-Definition cfg0 := mkCfg 0 true 8 8 8 true.
+Definition cfg0 := mkCfg 0 true 8 8 8 false.
 
 (* a KV record whose OldData lies ("the key already had this value") is skipped by
    accountsNewRoundImpl: the answer then depends on whether the round has been flushed *)
@@ -103,6 +106,10 @@ Definition late_ops : list op :=
    OPrune 0 0 0;
    OLand 0 0;
    ONewBlock (mkDelta 0 [] [] [] [])].
+
+(* the landing in late_ops is exactly what the hypothesis of the main theorems excludes *)
+Lemma late_ops_not_tolerated : lands_ok (init (late_cfg false) late_gen) late_ops = false.
+Proof. vm_compute. reflexivity. Qed.
 
 Lemma late_pending_refuted_lemma :
   exists c gen ops rnd a v,
